@@ -343,6 +343,43 @@ func seqCase(o *out.W, r *rng.R, i int) {
 	o.Emit(out.Case{I: i, Fam: "seq-" + opNames[op], Coq: term, Desc: map[string]interface{}{"op": opNames[op], "rule": rule, "segs": segs, "merges": merges, "go_final": final, "go_prev": prev}})
 }
 
+// nearMissVertex picks an integer point in the interior of a non-vertical edge of the polygon
+func nearMissVertex(r *rng.R, ip gen.IPoly) (gen.IPt, bool) {
+	for try := 0; try < 20; try++ {
+		c := ip.Contours[r.Intn(len(ip.Contours))]
+		if len(c) < 2 {
+			continue
+		}
+		k := r.Intn(len(c))
+		a, b := c[k], c[(k+1)%len(c)]
+		dx, dy := b.X-a.X, b.Y-a.Y
+		if dx == 0 {
+			continue
+		}
+		g := gcd(abs(dx), abs(dy))
+		if g < 2 {
+			continue
+		}
+		t := r.Range(1, g-1)
+		return gen.IPt{X: a.X + dx/g*t, Y: a.Y + dy/g*t}, true
+	}
+	return gen.IPt{}, false
+}
+
+func gcd(a, b int) int {
+	for b != 0 {
+		a, b = b, a%b
+	}
+	return a
+}
+
+func abs(a int) int {
+	if a < 0 {
+		return -a
+	}
+	return a
+}
+
 // toPaths cuts a path into elements of one to three subpaths each (a slice without spare capacity)
 func toPaths(p *canvas.Path, r *rng.R) canvas.Paths {
 	sub := p.Split()
@@ -428,6 +465,21 @@ func boCase(o *out.W, r *rng.R, i int, settle bool) {
 	}
 	P := build(ipP, 0, 0)
 	Q := build(ipQ, dx, dy)
+	if r.P(1, 4) {
+		// near miss: one more triangle in P with a vertex 2^-29 or 2^-28 (1.9e-9, 3.7e-9: inside the 1e-8 snap square) beside
+		// an integer point of an edge of P, without being an exact intersection
+		if v, ok := nearMissVertex(r, ipP); ok {
+			sgn := float64(2*r.Intn(2) - 1)
+			eps := sgn * math.Ldexp(1, -29-r.Intn(2)+1)
+			sc := ipP.Scale
+			x0, y0, x1, y1 := ipP.Bounds()
+			P.MoveTo(float64(v.X)*sc, float64(v.Y)*sc+eps)
+			P.LineTo(float64(r.Range(x0-1, x1+1))*sc, float64(r.Range(y0-1, y1+1))*sc)
+			P.LineTo(float64(r.Range(x0-1, x1+1))*sc, float64(r.Range(y0-1, y1+1))*sc)
+			P.Close()
+			fam += "+nearmiss"
+		}
+	}
 	pc, _, ok1 := decodeFlat(P)
 	qc, _, ok2 := decodeFlat(Q)
 	if !ok1 || !ok2 || len(pc) == 0 {
